@@ -17,26 +17,31 @@ ID = 'C16'
 RULE = ('two case kinds, each in a worker process whose class tables are built for Lmax in 2..6 (default 4 most often): '
         '"tables" = exhaustive check of every index/projection table of Taylor3D or Taylor2D for that Lmax; '
         '"ops" = random expansions: 1-3 radial orders n in -2..4, angular orders chosen so that every product stays '
-        'within Lmax, coefficient shapes scalar/vector/matrix (1..3), complex order-one coefficients, evaluation points '
+        'within Lmax, coefficient shapes scalar/vector/matrix (1..3), complex order-one coefficients '
+        '(15 % of the trials: all operands real float64), operands also in separated form (duplicate n), evaluation points '
         '0.6<=|u|<=1.6 in generic directions; non-trivial = every trial (at least two terms are combined); '
         'distinct = (dim, Lmax, shape mode, (n,l) lists of the operands)')
 ASSUMPTIONS = ['radial functions f_(n,l)(x) = x**n (the multiplicative family required for products)',
                'tolerance 1e-10 x natural scale (sum over terms of |u|^n |monomial| max|coefficient|, multiplied for products)',
-               'coefficients are complex with modulus 0.3..2.2, so the class threshold 1e-10 for "zero" is never ambiguous',
-               'operands of one operation have the same dtype (complex); real+complex sums are outside the explored set '
+               'coefficients have modulus 0.3..2.2, so the class threshold 1e-10 for "zero" is never ambiguous',
+               'operands of one operation have the same dtype (all complex128 or all float64); real+complex sums are outside the explored set '
                '(they raise UFuncTypeError in sumcoeff; reported separately)',
                'spherical harmonics reference: scipy.special (Condon-Shortley phase, orthonormal), as in the repository tests',
                'harmonic projectors reference: f = h_d + r^2 f_(d-2), Laplace(h_d)=0 solved in the monomial basis',
                'table tolerance 1e-10 x max|table entry|']
-REQUIRED_OBS = {'eval:C16:sum': 40, 'eval:C16:scalar': 40, 'eval:C16:product': 40, 'eval:C16:ldot-rdot': 20,
-                'eval:C16:getitem': 10, 'eval:C16:setitem': 10, 'eval:C16:truncate': 40, 'eval:C16:reduce': 40,
-                'eval:C16:reduce-canonical': 20, 'eval:C16:separate': 40, 'eval:C16:construct': 40,
-                'eval:C16:call': 400, 'eval:C16:powexp': 40, 'eval:C16:operands-unchanged': 40,
-                'eval:C16:table:pow-bijection': 10, 'eval:C16:table:directmult': 10, 'eval:C16:table:powercoeff': 10,
-                'eval:C16:table:Lproj': 10, 'eval:C16:table:Ylmpow': 5, 'eval:C16:table:powYlm': 5,
-                'eval:C16:table:Ylm-inverse': 5, 'eval:C16:table:FCpow': 5, 'eval:C16:table:powFC': 5,
-                'eval:C16:table:FC-inverse': 5, 'tables_3d': 5, 'tables_2d': 5, 'trials_3d': 20, 'trials_2d': 20,
-                'reduce_lowered_l': 5, 'reduce_deleted_term': 3, 'products_at_Lmax': 5}
+REQUIRED_OBS = {'eval:C16:sum': 2000, 'eval:C16:scalar': 1000, 'eval:C16:product': 500, 'eval:C16:ldot-rdot': 800,
+                'eval:C16:getitem': 600, 'eval:C16:setitem': 100, 'eval:C16:truncate': 1000, 'eval:C16:reduce': 800,
+                'eval:C16:reduce-canonical': 1500, 'eval:C16:separate': 800, 'eval:C16:separate-pure': 200,
+                'eval:C16:construct': 500, 'eval:C16:call': 7000, 'eval:C16:call-dict': 300, 'eval:C16:powexp': 400,
+                'eval:C16:operands-unchanged': 300, 'eval:C16:layout': 7000,
+                # table monitors: one evaluation per (dimension, Lmax) -- all ten table cases must have run
+                'eval:C16:table:counts': 10, 'eval:C16:table:pow-bijection': 10, 'eval:C16:table:powlrange': 10,
+                'eval:C16:table:directmult': 10, 'eval:C16:table:powercoeff': 10, 'eval:C16:table:Lproj': 10,
+                'eval:C16:table:Lproj-support': 10, 'eval:C16:table:Lproj-idempotent': 20, 'eval:C16:table:Lproj-complete': 20,
+                'eval:C16:table:Ylmpow': 5, 'eval:C16:table:powYlm': 5, 'eval:C16:table:Ylm-inverse': 5,
+                'eval:C16:table:FCpow': 5, 'eval:C16:table:powFC': 5, 'eval:C16:table:FC-inverse': 5,
+                'tables_3d': 5, 'tables_2d': 5, 'trials_3d': 100, 'trials_2d': 100,
+                'separated_operands_with_duplicate_n': 80, 'real_dtype_trials': 15, 'reduce_lowered_l': 50, 'reduce_deleted_term': 40, 'reduce_duplicate_n': 40, 'products_at_Lmax': 50}
 CASE_TIMEOUT = 300
 LIMITS = ('expansions that mix real and complex coefficient arrays in one sum, products whose angular order exceeds Lmax, '
           'evaluation at |u|<1e-8 (direction undefined), HDF5 round trips and addterms are not explored')
@@ -268,11 +273,13 @@ def trial_ops(ctx):
     if rng.uniform() < 0.5:  # make the second summand overlap the first in at least one n with a different l
         nl2 = sorted(set([(nla[0][0], int(rng.integers(0, L + 1)))] + [x for x in nl2 if x[0] != nla[0][0]]))
     nl3 = ref.rand_nl(rng, L, L)
-    a_raw = ref.rand_coefflist(rng, PLR, nla, sa)
-    a2_raw = ref.rand_coefflist(rng, PLR, nl2, sa)
-    a3_raw = ref.rand_coefflist(rng, PLR, nl3, sa)
-    c_raw = ref.rand_coefflist(rng, PLR, nlc, sc)
-    ctx.desc = '%dD Lmax=%d mode=%s a=%s%s a2=%s c=%s%s' % (dim, L, mode, nla, sa, nl2, nlc, sc)
+    real = bool(rng.uniform() < 0.15)  # all operands of the trial real-valued (float64 arrays) instead of complex
+    if real: mon.count('real_dtype_trials')
+    a_raw = ref.rand_coefflist(rng, PLR, nla, sa, real)
+    a2_raw = ref.rand_coefflist(rng, PLR, nl2, sa, real)
+    a3_raw = ref.rand_coefflist(rng, PLR, nl3, sa, real)
+    c_raw = ref.rand_coefflist(rng, PLR, nlc, sc, real)
+    ctx.desc = '%dD Lmax=%d mode=%s%s a=%s%s a2=%s c=%s%s' % (dim, L, mode, ' real' if real else '', nla, sa, nl2, nlc, sc)
     mon.sig([dim, L, mode, nla, nlc, nl2])
     mon.seen('shape_modes', mode)
     a, a2, a3, c = T(a_raw), T(a2_raw), T(a3_raw), T(c_raw)
@@ -324,8 +331,7 @@ def trial_ops(ctx):
         for u in us:
             cmp_at(ctx, 'sum', t, ev(a_raw, u) + ev(a2_raw, u) + ev(a3_raw, u), u,
                    ctx.mag(a_raw, u) + ctx.mag(a2_raw, u) + ctx.mag(a3_raw, u), 'sum([a,a2,a3])')
-        arr = ref.rand_array(rng, sa)
-        arr = np.asarray(arr)
+        arr = np.asarray(ref.rand_array(rng, sa, real))
         for name, t, s in (('a+array', a + arr, 1), ('a-array', a - arr, -1)):
             for u in us:
                 cmp_at(ctx, 'sum', t, ev(a_raw, u) + s * arr, u, ctx.mag(a_raw, u) + 3., name)
@@ -375,7 +381,7 @@ def trial_ops(ctx):
         sac = np.shape(dot(np.zeros(sa), np.zeros(sc)))
         sd_ = () if (not sac or rng.uniform() < 0.4) else (sac[-1], q)
         nld = ref.rand_nl(rng, L, ld)
-        d_raw = ref.rand_coefflist(rng, PLR, nld, sd_)
+        d_raw = ref.rand_coefflist(rng, PLR, nld, sd_, real)
         d = T(d_raw)
         inner2 = sac[-1] if (len(sac) and len(sd_)) else 1
         acd = ac * d
@@ -386,6 +392,23 @@ def trial_ops(ctx):
             cmp_at(ctx, 'product', acd, exp3, u, sc3, '(a*c)*d d=%s%s' % (nld, sd_))
             if a_cd is not None:
                 cmp_at(ctx, 'product', a_cd, exp3, u, sc3, 'a*(c*d) d=%s%s' % (nld, sd_))
+
+    # ---- operands in separated form (several entries with the same n, as left behind by separate())
+    with mon.guard('C16:separated-operands'):
+        asep, a2sep, csep = T(a_raw).reduce().separate(), T(a2_raw).reduce().separate(), T(c_raw).reduce().separate()
+        ndup = max(len(asep.coefflist) - len(set(x[0] for x in asep.coefflist)), len(csep.coefflist) - len(set(x[0] for x in csep.coefflist)))
+        if ndup > 0: mon.count('separated_operands_with_duplicate_n')
+        tt = a2sep.copy(); tt += asep
+        for u in us[:1]:
+            sA, sA2, sC = ev(a_raw, u), ev(a2_raw, u), ev(c_raw, u, sc)
+            ssum = ctx.mag(a_raw, u) + ctx.mag(a2_raw, u)
+            cmp_at(ctx, 'sum', asep + a2sep, sA + sA2, u, ssum, 'separated a+a2')
+            cmp_at(ctx, 'sum', asep - a2sep, sA - sA2, u, ssum, 'separated a-a2')
+            cmp_at(ctx, 'sum', tt, sA + sA2, u, ssum, 'separated a2+=a')
+            cmp_at(ctx, 'sum', (asep + a2sep).reduce(), sA + sA2, u, ssum, 'separated (a+a2).reduce()')
+            cmp_at(ctx, 'product', asep * csep, dot(sA, sC), u, ctx.mag(a_raw, u) * ctx.mag(c_raw, u) * inner, 'separated a*c')
+            cmp_at(ctx, 'product', (asep * csep).reduce().separate(), dot(sA, sC), u, ctx.mag(a_raw, u) * ctx.mag(c_raw, u) * inner,
+                   'separated (a*c).reduce().separate()')
 
     # ---- indexing and slicing
     if len(sa) >= 1:
